@@ -109,6 +109,51 @@ def prepare_impl(ctx):
     return dst
 
 
+def prepare_impl_tracked_c(ctx):
+    """A second copy of the implementation whose extensions are compiled from the TRACKED .c files - what
+    `setup.py build_ext` does on a fresh checkout, where the generated C is not older than the .pyx and is not
+    regenerated.  Returns the directory, or None when the tree tracks no generated C."""
+    src = prepare_impl(ctx)
+    rc = os.path.join(REPO, "scriptplan", "_cython")
+    cs = sorted(f for f in os.listdir(rc) if f.endswith(".c"))
+    if not cs:
+        return None
+    dst = os.path.join(ctx.scratch, "impl_c")
+    subprocess.run(["rsync", "-a", "--delete", "--exclude", "*.so", "--exclude", "__pycache__", "--exclude", "build", src + "/", dst + "/"], check=True)
+    cyd = os.path.join(dst, "scriptplan", "_cython")
+    h = hashlib.sha256()
+    newest = max(os.path.getmtime(os.path.join(cyd, x)) for x in os.listdir(cyd))
+    for f in cs:
+        shutil.copy2(os.path.join(rc, f), os.path.join(cyd, f))
+        os.utime(os.path.join(cyd, f), (newest + 60, newest + 60))
+        h.update(f.encode() + b"\0" + open(os.path.join(cyd, f), "rb").read())
+    h.update(open(os.path.join(dst, "setup.py"), "rb").read())
+    cache = os.path.join(BUILD, "cache", "so", "c-" + h.hexdigest()[:20])
+    if not (os.path.isdir(cache) and any(x.endswith(".so") for x in os.listdir(cache))):
+        before = {f: open(os.path.join(cyd, f), "rb").read() for f in cs}
+        r = subprocess.run([PY, "setup.py", "build_ext", "--inplace", "-j", "3"], cwd=dst, capture_output=True, text=True)
+        if any(open(os.path.join(cyd, f), "rb").read() != before[f] for f in cs):
+            return None                      # the build regenerated the C after all: nothing different to look at
+        tmp = cache + ".tmp%d" % os.getpid()
+        os.makedirs(tmp, exist_ok=True)
+        for x in os.listdir(cyd):
+            if x.endswith(".so"):
+                shutil.copy2(os.path.join(cyd, x), tmp)
+        open(os.path.join(tmp, "build.log"), "w").write(r.stdout[-4000:] + r.stderr[-4000:])
+        if os.path.isdir(cache):
+            shutil.rmtree(tmp)
+        else:
+            os.rename(tmp, cache)
+    try:
+        os.utime(cache)
+    except OSError:
+        pass
+    for x in os.listdir(cache):
+        if x.endswith(".so"):
+            shutil.copy2(os.path.join(cache, x), cyd)
+    return dst
+
+
 def impl_env(ctx, hashseed="0", extra=None):
     env = dict(os.environ)
     env["PYTHONPATH"] = prepare_impl(ctx) + ":" + os.path.join(VERIF, "harness")
